@@ -26,6 +26,159 @@ enum Sc {
         value_seed: u64,
     },
     Flight(VmSc),
+    /// the helper functions instructions are written with (`HasStack::{not_full, with_push, with_replace}`,
+    /// `PushOnto::{push_onto, replace_on}`, `StackPush::with_stack_push`, `StackDiscard::with_stack_discard`),
+    /// called directly at the boundary states: they are how "the state handed back with the error" is produced
+    Helper {
+        helper: u8,
+        on_bool: bool,
+        n: usize,
+        sizes: [usize; 4],
+        slack: [usize; 4],
+        value_seed: u64,
+    },
+}
+
+const HELPERS: usize = 8;
+const HELPER_CELLS: usize = HELPERS * 2 * 5 * STATES_PER_STACK;
+
+fn helper_cell(cell: usize, g: &mut Xo) -> Sc {
+    let mut c = cell % HELPER_CELLS;
+    let helper = (c % HELPERS) as u8;
+    c /= HELPERS;
+    let on_bool = c % 2 == 1;
+    c /= 2;
+    let n = c % 5;
+    c /= 5;
+    let mut sizes = [0usize; 4];
+    let mut slack = [0usize; 4];
+    for k in 0..4 {
+        sizes[k] = g.urange(0, 3);
+        slack[k] = *g.pick(&SLACKS);
+    }
+    let k = if on_bool { 3 } else { 1 };
+    sizes[k] = c / 3;
+    slack[k] = SLACKS[c % 3];
+    Sc::Helper { helper, on_bool, n, sizes, slack, value_seed: g.next_u64() }
+}
+
+fn grid_state(sizes: [usize; 4], slack: [usize; 4], g: &mut Xo) -> Option<push::push_vm::push_state::PushState> {
+    let filler = [Prog::I(Ins::Exec(ExecOp::Noop)), Prog::B(vec![Prog::I(Ins::PushBool(false))])];
+    let init = VmInit {
+        caps: Caps { exec: sizes[0] + slack[0], int: sizes[1] + slack[1], float: sizes[2] + slack[2], bool: sizes[3] + slack[3] },
+        int: (0..sizes[1]).map(|_| gen_i64(g)).collect(),
+        float: (0..sizes[2]).map(|_| F::of(gen_f64(g))).collect(),
+        bool: (0..sizes[3]).map(|_| g.coin()).collect(),
+        program: (0..sizes[0]).map(|k| filler[k % 2].clone()).collect(),
+        inputs: vec![("i0".into(), Lit::Int(gen_i64(g)))],
+        limit: 10,
+        wrap: 0,
+        giant: 0,
+    };
+    build_real(&init).ok()
+}
+
+/// One helper call on stack type `T`; the expected result is computed from the contents before the call.
+fn helper_on<T>(helper: u8, n: usize, state: push::push_vm::push_state::PushState, v: T, obs: &mut Obs) -> Vec<Violation>
+where
+    T: Clone + PartialEq + std::fmt::Debug + std::panic::UnwindSafe + 'static,
+    push::push_vm::push_state::PushState: push::push_vm::stack::HasStack<T>,
+{
+    use push::{
+        error::{Error, InstructionResult},
+        push_vm::{
+            push_state::PushState,
+            stack::{HasStack, PushOnto, StackDiscard, StackError, StackPush},
+        },
+    };
+    let pre = state.clone();
+    let before: Vec<T> = {
+        let mut c = HasStack::<T>::stack::<T>(&pre).clone();
+        let mut v = Vec::new();
+        while let Ok(x) = c.pop() {
+            v.push(x);
+        }
+        v // top first
+    };
+    let max = HasStack::<T>::stack::<T>(&pre).max_stack_size();
+    let name = ["not_full", "with_push", "with_replace", "push_onto", "replace_on", "push_onto(Err)", "with_stack_push", "with_stack_discard"]
+        [helper as usize % HELPERS];
+    let vv = v.clone();
+    let r: Result<InstructionResult<PushState, StackError>, _> = catch(move || match helper % HELPERS as u8 {
+        0 => HasStack::<T>::not_full::<T>(state),
+        1 => HasStack::<T>::with_push(state, vv),
+        2 => HasStack::<T>::with_replace(state, n, vv),
+        3 => Ok::<T, StackError>(vv).push_onto(state),
+        4 => Ok::<T, StackError>(vv).replace_on(n, state),
+        5 => Err::<T, StackError>(StackError::Underflow { num_requested: 1, num_present: 0 }).push_onto(state),
+        6 => Ok::<PushState, Error<PushState, StackError>>(state).with_stack_push(vv),
+        _ => Ok::<PushState, Error<PushState, StackError>>(state).with_stack_discard::<T>(n),
+    });
+    // expected contents (top first) on success; None = must fail
+    let expected: Option<Vec<T>> = match helper % HELPERS as u8 {
+        0 => (before.len() < max).then(|| before.clone()),
+        1 | 3 | 6 => (before.len() < max).then(|| std::iter::once(v.clone()).chain(before.iter().cloned()).collect()),
+        2 | 4 => (n <= before.len() && before.len() - n < max)
+            .then(|| std::iter::once(v.clone()).chain(before[n..].iter().cloned()).collect()),
+        5 => None,
+        _ => (n <= before.len()).then(|| before[n..].to_vec()),
+    };
+    let mut out = Vec::new();
+    obs.count("steps", 1);
+    obs.hit("probe.helper-calls");
+    match r {
+        Err(p) => out.push(Violation::new(
+            "never-panics",
+            format!("panic:helper:{name}"),
+            format!("{name}({n}) panicked in {}: {}", describe(&pre), p.message),
+        )),
+        Ok(Ok(post)) => {
+            let after: Vec<T> = {
+                let mut c = HasStack::<T>::stack::<T>(&post).clone();
+                let mut v = Vec::new();
+                while let Ok(x) = c.pop() {
+                    v.push(x);
+                }
+                v
+            };
+            match expected {
+                None => out.push(Violation::new(
+                    "error-state-unchanged",
+                    format!("helper-should-fail:{name}"),
+                    format!("{name}({n}) succeeded in {} although it cannot be carried out; after: {}", describe(&pre), describe(&post)),
+                )),
+                Some(e) if e != after => out.push(Violation::new(
+                    "error-state-unchanged",
+                    format!("helper-result:{name}"),
+                    format!("{name}({n}) in {} gave {after:?}, expected {e:?}", describe(&pre)),
+                )),
+                Some(_) => {}
+            }
+        }
+        Ok(Err(e)) => {
+            obs.hit("fault.helper-failure");
+            obs.nontrivial(mix(fnv1a(name.as_bytes()), (n * 64 + before.len() * 8 + max.min(7)) as u64));
+            if *e.state() != pre {
+                out.push(Violation::new(
+                    "error-state-unchanged",
+                    format!("error-state:helper:{name}"),
+                    format!(
+                        "{name}({n}) failed ({}) but the carried state differs from the state before it: before {} | carried {}",
+                        e.error(),
+                        describe(&pre),
+                        describe(e.state())
+                    ),
+                ));
+            } else if expected.is_some() {
+                out.push(Violation::new(
+                    "error-state-unchanged",
+                    format!("helper-should-succeed:{name}"),
+                    format!("{name}({n}) failed ({}) in {} although it can be carried out", e.error(), describe(&pre)),
+                ));
+            }
+        }
+    }
+    out
 }
 
 fn all_variants() -> Vec<Prog> {
@@ -100,6 +253,7 @@ fn exec_grid(prog: &Prog, sizes: [usize; 4], slack: [usize; 4], value_seed: u64,
         ],
         limit: 10,
         wrap: 0,
+        giant: 0,
     };
     let Ok(state) = build_real(&init) else {
         return vec![Violation::new(
@@ -163,6 +317,8 @@ fn describe(s: &push::push_vm::push_state::PushState) -> String {
     )
 }
 
+const HELPER_RUNS: u64 = 16 * HELPER_CELLS as u64;
+
 struct C02 {
     variants: Vec<Prog>,
 }
@@ -192,6 +348,8 @@ impl Check for C02 {
         vec![
             "fault.grid-fatal-failure",
             "fault.grid-recoverable-failure",
+            "fault.helper-failure",
+            "probe.helper-calls",
         ]
     }
 
@@ -199,7 +357,7 @@ impl Check for C02 {
         format!(
             "(1) enumerated grid: {} instruction variants (every variant of every family, literal/exec pushes, inputs, blocks of 0-3 items) \
              x 12^4 boundary states (each of exec/int/float/bool at size 0..=3 with capacity size, size+1, size+3), values from \
-             boundary pools (1 draw per cell quick, 16 thorough), every cell performed on the real code; (2) seeded programs with \
+             boundary pools (1 draw per cell quick, 16 thorough), every cell performed on the real code; (1b) the 8 helper functions instructions are written with (not_full, with_push, with_replace, push_onto, replace_on, with_stack_push, with_stack_discard) called directly with n = 0..=4 on the int and bool stacks at the same boundary shapes; (2) seeded programs with \
              capacity-shrink / operand-starve faults between steps and skip-equals-Noop comparisons on the real loop. \
              Non-trivial iff an instruction actually failed (returned Err); distinct = distinct (instruction, state shape) cells \
              resp. scenario fingerprints",
@@ -209,6 +367,7 @@ impl Check for C02 {
 
     fn runs(&self, tier: Tier) -> u64 {
         self.grid_runs(tier)
+            + HELPER_RUNS
             + match tier {
                 Tier::Quick => 400_000,
                 Tier::Thorough => 40_000_000,
@@ -219,6 +378,8 @@ impl Check for C02 {
         let grid = self.grid_runs(tier);
         if run < grid {
             grid_cell(&self.variants, (run % self.cells()) as usize, g.next_u64())
+        } else if run < grid + HELPER_RUNS {
+            helper_cell((run - grid) as usize, g)
         } else {
             let mut sc = vmgen::gen_scenario(g, Bias::Balanced);
             // bias: faults land right before instructions, early in the program
@@ -242,6 +403,15 @@ impl Check for C02 {
                 obs.hit("grid-cells");
                 exec_grid(prog, *sizes, *slack, *value_seed, obs)
             }
+            Sc::Helper { helper, on_bool, n, sizes, slack, value_seed } => {
+                let mut g = Xo::from_seed(*value_seed);
+                let Some(state) = grid_state(*sizes, *slack, &mut g) else { return Vec::new() };
+                if *on_bool {
+                    helper_on::<bool>(*helper, *n, state, g.coin(), obs)
+                } else {
+                    helper_on::<i64>(*helper, *n, state, gen_i64(&mut g), obs)
+                }
+            }
             Sc::Flight(v) => {
                 let c = |o: &Obs, k: &str| o.counters.get(k).copied().unwrap_or(0);
                 let f0 = c(obs, "probe.recoverable-error") + c(obs, "probe.fatal-error");
@@ -256,7 +426,7 @@ impl Check for C02 {
 
     fn shrink(&self, sc: &Sc) -> Vec<Sc> {
         match sc {
-            Sc::Grid { .. } => Vec::new(),
+            Sc::Grid { .. } | Sc::Helper { .. } => Vec::new(),
             Sc::Flight(v) => vmgen::shrink(v).into_iter().map(Sc::Flight).collect(),
         }
     }
